@@ -28,6 +28,9 @@ def run(ctx):
     ctx.coverage.update(states=res.distinct, transitions=res.generated)
     seeds = [ctx.seed * 1000 + 500 + i for i in range(8 if q else 64)]
     lines, sums = cc.run_scenarios(ctx, seeds, 150 if q else 400)
+    l2, s2 = cc.run_scenarios(ctx, [x + 300 for x in seeds[:max(2, len(seeds) // 3)]], 150 if q else 400, extra=cc.VRF)
+    lines += l2
+    sums += s2
     t = cc.totals(sums)
     for s in sums:
         for p in (s.get("panics") or [])[:2]:
